@@ -27,6 +27,8 @@ var table = map[string]func(props.Cfg) int{
 	"C13": props.C13,
 	"C14": props.C14,
 	"C15": props.C15,
+	"C16": props.C16,
+	"C17": props.C17,
 }
 
 func main() {
